@@ -60,6 +60,7 @@ class FunctionSpec:
     class_invariants: bool = False     # use the declared class invariants (schema.CLASS_INVARIANTS) as background axioms in this verification
     elementwise: Set[str] = field(default_factory=set)    # scalar parameters that may be given as a numpy array: the contract then holds element by element (assumed broadcasting)
     numpy_arrays: bool = False         # list-kinded values in this function are numpy arrays: + - * / between them are element-wise, not concatenation
+    rows_as_tuples: bool = False       # list literals of mixed kinds (table rows such as ['insertion', 17, 1.5]) are fixed-length immutable rows (tuples)
     verify_only: bool = False          # the body is verified against this contract, but call sites keep inlining the body (constructors)
 
     @property
@@ -90,12 +91,43 @@ def view(engine, st, v):
         return tuple(view(engine, st, i) for i in v.items)
     if isinstance(v, VRecord):
         return {n: view(engine, st, i) for n, i in v.items}
+    if isinstance(v, VDict):
+        return DictView(engine, st, v)
     if isinstance(v, VFunc):
         return FuncView(engine, st, v)
     if isinstance(v, VIter):
         l, pos = st.iters[v.iid]
         return IterView(pos, ListView(engine, st, l))
     return v
+
+
+class DictView:
+    """a read-only dict inside spec text"""
+    def __init__(self, engine, st, d):
+        self._e, self._st, self.v = engine, st, d
+        engine.add_background(('dict', str(d.t)), z3.And(*d.axioms()))
+
+    def _key(self, k):
+        if isinstance(k, tuple):
+            return VTuple(tuple(self._one(x, kk) for x, kk in zip(k, self.v.key.items)))
+        return self._one(k, self.v.key)
+
+    @staticmethod
+    def _one(x, kind):
+        if isinstance(x, V):
+            return x
+        if hasattr(x, 'v') and isinstance(x.v, V):
+            return x.v
+        return kind.from_cols([x])
+
+    def has(self, k): return self.v.has(self._key(k))
+    def __getitem__(self, k): return view(self._e, self._st, self.v.get(self._key(k)))
+    @property
+    def len(self): return self.v.n
+    @property
+    def keys(self): return ListView(self._e, self._st, self.v.keys_list())
+    @property
+    def values(self): return ListView(self._e, self._st, self.v.values_list())
 
 
 class FuncView:
